@@ -1,7 +1,7 @@
 (* C07/Proofs.v -- the functional-tree theorem: for every well-formed tree of the model,
    fprox returns THE proximal point of fval (all trees, all sizes, all admissible steps). *)
 From Coq Require Import ZArith QArith Reals Lra Lia List Bool Psatz.
-From Verif Require Import Base.Num Base.Vec Base.VecR C07.Model C07.Convex C07.Leaves C07.LeafThms C07.Rules C07.L2.
+From Verif Require Import Base.Num Base.Vec Base.VecR C07.Model C07.Convex C07.Leaves C07.LeafThms C07.Rules C07.L2 C07.Compose C07.Sorting.
 Import ListNotations.
 Local Open Scope R_scope.
 
@@ -10,12 +10,16 @@ Notation sigR := (@sig R).
 Notation leafR := (@leaf R).
 
 (* ---- which leaves are covered by the tree theorem, and which steps they accept ---- *)
-Definition leaf_ok (k : leafR) (n : nat) : Prop :=
+Definition uniform (w : Rvec) (c : R) : Prop := w = repeat c (length w).
+Definition leaf_ok (k : leafR) (w : Rvec) : Prop :=
+  let n := length w in
   match k with
   | FL1 | FL2 | FL2Sq | FConst _ | FIndZero _ | FBallInf | FBall2 => True
   | FBox lo hi => bound_ok n lo /\ bound_ok n hi
   | FHuber gamma => 0 <= gamma
   | FGroupL1 _ _ false | FGroupBall _ _ false => True     (* pointwise exponent 1 / inf: same code path as L1 / max-norm ball *)
+  | FSimplex d => 0 <= d /\ (1 <= n)%nat /\ exists c, uniform w c       (* sort-based: uniformly weighted space *)
+  | FBall1 | FLInf => (1 <= n)%nat /\ uniform w 1                       (* sort-based: unweighted space *)
   | _ => False
   end.
 Definition leaf_vec_ok (k : leafR) : Prop :=
@@ -29,7 +33,7 @@ Definition leaf_sig_ok (k : leafR) (n : nat) (s : sigR) : Prop :=
 
 Fixpoint wf (e : fexprR) : Prop :=
   match e with
-  | Leaf k w => allpos w /\ leaf_ok k (length w)
+  | Leaf k w => allpos w /\ leaf_ok k w
   | LScal s e' => 0 < s /\ wf e'
   | RScal s e' => s <> 0 /\ wf e'
   | SSum _ e' => wf e'
@@ -165,14 +169,14 @@ Proof.
 Qed.
 
 Lemma leaf_prox_optimal (k : leafR) (w : Rvec) (s : sigR) (x : Rvec) :
-  allpos w -> leaf_ok k (length w) -> leaf_sig_ok k (length w) s -> length x = length w ->
+  allpos w -> leaf_ok k w -> leaf_sig_ok k (length w) s -> length x = length w ->
   exists p, leaf_prox k w s x = Ok p /\
             is_proxs (length w) (leaf_val k w) (metric w (sigv (length w) s)) x p.
 Proof.
   intros Pw Hk Hs Hx. destruct (sigv_ok _ _ _ Hs) as [Ls Ps].
   set (n := length w) in *.
   assert (Pm : allpos (metric w (sigv n s))) by (apply (metric_allpos n); auto).
-  destruct k; cbn [leaf_ok] in Hk; try contradiction; unfold leaf_prox; rewrite ?Hx.
+  destruct k; cbv zeta in Hk; cbn [leaf_ok] in Hk; fold n in Hk; try contradiction; unfold leaf_prox; rewrite ?Hx.
   - (* L1 *) destruct s as [sg|v|a b]; [| |contradiction]; eexists; (split; [reflexivity|]);
       apply l1_leaf_prox; auto.
   - (* L2 *)
@@ -180,6 +184,14 @@ Proof.
     cbn [needs_scalar]. eexists; split; [reflexivity|]. apply l2_leaf_prox; auto.
   - (* L2^2 *) destruct s as [sg|v|a b]; [| |contradiction]; eexists; (split; [reflexivity|]);
       apply l2sq_leaf_prox; auto.
+  - (* L-infinity norm on an unweighted space *)
+    destruct Hk as [Hn Hu]. unfold uniform in Hu. fold n in Hu.
+    destruct s as [sg|v|a b]; cbn [leaf_sig_ok leaf_vec_ok] in Hs; [|tauto|contradiction].
+    destruct (linf_leaf_prox n sg x Hs Hx Hn) as (p & Ep & Pp).
+    exists p. rewrite Hu. split; [exact Ep|].
+    cbn [sigv]. replace (metric (repeat 1 n) (repeat sg n)) with (repeat (/ sg) n); [exact Pp|].
+    clear. induction n; cbn [repeat]; [reflexivity|]. unfold metric, vdiv in *. cbn [vmap2]. rewrite <- IHn. numR.
+    f_equal. unfold Rdiv. ring.
   - (* constant *) eexists; split; [reflexivity|].
     apply (is_proxs_ext n (fun _ => Some c)); [reflexivity|]. apply const_leaf_prox; auto with vlen.
   - (* box *) destruct Hk as [Hlo Hhi]. eexists; split; [reflexivity|]. apply box_leaf_prox; auto.
@@ -190,9 +202,29 @@ Proof.
   - (* unit ball of the space norm, through the Moreau rule *)
     destruct s as [sg|v|a b]; cbn [leaf_sig_ok leaf_vec_ok] in Hs; [|tauto|contradiction].
     apply (ball2_leaf_prox n); auto.
+  - (* unit ball of the 1-norm on an unweighted space *)
+    destruct Hk as [Hn Hu]. unfold uniform in Hu. fold n in Hu.
+    destruct s as [sg|v|a b]; cbn [leaf_sig_ok leaf_vec_ok] in Hs; [|tauto|contradiction].
+    assert (Hk' : 0 < / sg) by (apply Rinv_0_lt_compat; assumption).
+    destruct (ball1_leaf_prox n (/ sg) x Hk' Hx Hn) as (p & Ep & Pp).
+    exists p. rewrite Hu. split; [exact Ep|].
+    cbn [sigv]. replace (metric (repeat 1 n) (repeat sg n)) with (repeat (/ sg) n); [exact Pp|].
+    clear. induction n; cbn [repeat]; [reflexivity|]. unfold metric, vdiv in *. cbn [vmap2]. rewrite <- IHn. numR.
+    f_equal. unfold Rdiv. ring.
   - (* Huber *)
     destruct s as [sg|v|a b]; cbn [leaf_sig_ok leaf_vec_ok] in Hs; [|tauto|contradiction].
     cbn [needs_scalar]. eexists; split; [reflexivity|]. apply huber_leaf_prox; auto.
+  - (* simplex on a uniformly weighted space *)
+    destruct Hk as (Hd & Hn & c & Hu). unfold uniform in Hu. fold n in Hu.
+    destruct s as [sg|v|a b]; cbn [leaf_sig_ok leaf_vec_ok] in Hs; [|tauto|contradiction].
+    assert (Hc : 0 < c).
+    { rewrite Hu in Pw. destruct n; [lia|]. cbn [repeat] in Pw. inversion Pw; assumption. }
+    assert (Hk' : 0 < c / sg) by (apply Rdiv_lt_0_compat; assumption).
+    destruct (simplex_leaf_prox n diam (c / sg) w x Hd Hk' Hx Hn) as (p & Ep & Pp).
+    exists p. split; [exact Ep|].
+    cbn [sigv]. rewrite Hu at 2. replace (metric (repeat c n) (repeat sg n)) with (repeat (c / sg) n); [exact Pp|].
+    clear. induction n; cbn [repeat]; [reflexivity|]. unfold metric, vdiv in *. cbn [vmap2]. rewrite <- IHn. numR.
+    reflexivity.
   - (* GroupL1Norm with pointwise exponent 1 *)
     destruct two; [contradiction|].
     destruct s as [sg|v|a b]; [| |contradiction]; eexists; (split; [reflexivity|]);
